@@ -2,7 +2,7 @@
    Reference encoders (rec4 / recs4, rec5, enc_did / enc_dids, lenpref, big-endian fields) are in Proofs/C02_lemmas.v. *)
 From Coq Require Import ZArith List Bool String.
 From UDS Require Import Lib.Bytes Lib.ErrM Lib.PyOps Model.Message Model.Client Model.Services Model.Svc_Memory Model.Svc_Did
-  Model.Svc_File Model.Svc_Dtc Proofs.Bytes_lemmas Proofs.History_lemmas Proofs.C02_lemmas Proofs.C14_lemmas.
+  Model.Svc_File Model.Svc_Dtc Proofs.Bytes_lemmas Proofs.History_lemmas Proofs.C02_lemmas Proofs.C02b_lemmas Proofs.C14_lemmas.
 Import ListNotations.
 Open Scope Z_scope.
 
@@ -52,7 +52,56 @@ Theorem C02_did_values : forall pc req l pre vals fuel,
 Proof. exact rdbi_loop_decode. Qed.
 Print Assumptions C02_did_values.
 
-(* C02_partial: the snapshot, extended-data, severity-record and fault-counter decoders of ReadDTCInformation, the
-   RequestFileTransfer composite and the Authentication task layouts are decoded field by field by the functions whose
-   primitive steps are proved above (take_num, extract_param, sub3/at_); their end-to-end statement is checked by the
+(* snapshot records of reportDTCSnapshotRecordByDTCNumber (0x04), every edition, dtc_snapshot_did_size 1..8: any number of
+   records, each with 1..255 DIDs of configured fixed-length codecs: DTC, status, every record number, DID and value *)
+Theorem C02_snapshots_by_dtc : forall cfg a dtc st l,
+  0 <= dtc < 16777216 -> 0 <= st < 256 -> 1 <= snap_did cfg <= 8 -> Forall (wf_snap (pc_of cfg)) l ->
+  rdtci_decode cfg 4 a ([4] ++ be_enc 3 dtc ++ [st] ++ flat_map (snap_rec (Z.to_nat (snap_did cfg))) l)
+  = inr {| r_echo := 4; r_memsel := -1; r_status_av := -1; r_sev_av := -1; r_format := -1; r_fgid := -1; r_count := 1;
+           r_dtcs := [dtc_with (mk_dtc dtc) st 0 (-1) (-1) (flat_map snaps_of l) []] |}.
+Proof. exact snapshots_by_dtc_decode. Qed.
+Print Assumptions C02_snapshots_by_dtc.
+
+(* snapshot records by record number (0x05): (record number, DTC, status, DIDs)* *)
+Theorem C02_snapshots_by_record : forall pc l pre acc fuel,
+  Forall (wf_srec pc) l -> (List.length l < fuel)%nat ->
+  loop_snap_by_rec fuel pc (pre ++ flat_map (srec (Z.to_nat (pc_snap pc))) l ++ repeat 0 0) (List.length pre) acc
+  = inr (acc ++ map dtc_of_srec l).
+Proof. intros pc l pre acc fuel Hw Hf. exact (loop_snap_by_rec_decode pc l pre acc fuel 0 Hw Hf (or_introl eq_refl)). Qed.
+Print Assumptions C02_snapshots_by_record.
+
+(* extended data of reportDTCExtendedDataRecordByDTCNumber (0x06): any number of (record number, data of the configured size) *)
+Theorem C02_extended_data_by_dtc : forall cfg a dtc st size l,
+  0 <= dtc < 16777216 -> 0 <= st < 256 -> ext_size_of cfg a = inr size -> Forall (wf_ext size) l ->
+  rdtci_decode cfg 6 a ([6] ++ be_enc 3 dtc ++ [st] ++ flat_map ext_rec l)
+  = inr {| r_echo := 6; r_memsel := -1; r_status_av := -1; r_sev_av := -1; r_format := -1; r_fgid := -1; r_count := 1;
+           r_dtcs := [dtc_with (mk_dtc dtc) st 0 (-1) (-1) [] l] |}.
+Proof. exact extdata_by_dtc_decode. Qed.
+Print Assumptions C02_extended_data_by_dtc.
+
+(* extended data by record number (0x16): (DTC, status, data)* with distinct DTCs *)
+Theorem C02_extended_data_by_record : forall pc size recnum l pre fuel,
+  Forall (wf_erec size) l -> NoDup (map eid l) -> (List.length l < fuel)%nat ->
+  loop_ext_by_rec fuel pc size recnum (pre ++ flat_map erec l ++ repeat 0 0) (List.length pre) [] = inr (map (dtc_of_erec recnum) l).
+Proof.
+  intros pc size recnum l pre fuel Hw Hn Hf.
+  exact (loop_ext_by_rec_decode pc size recnum l pre [] fuel 0 Hw Hn (fun y Hy => match Hy with end) Hf (or_introl eq_refl)).
+Qed.
+Print Assumptions C02_extended_data_by_record.
+
+(* severity records (0x08, 0x09): severity bits 5..7, functional unit, DTC, status; fault counters (0x14) *)
+Theorem C02_severity_records : forall pc sub l pre acc fuel,
+  Forall wf_rec6 l -> (pc_ign pc = true -> Forall (fun x => x <> (0, 0, 0, 0)) l) -> (List.length l + 0 < fuel)%nat ->
+  loop_records fuel pc sub true (pre ++ flat_map rec6 l ++ repeat 0 0) (List.length pre) acc = inr (acc ++ map dtc6 l).
+Proof. intros pc sub l pre acc fuel Hw Hz Hf. exact (loop_records6_decode pc sub l pre acc 0 fuel Hw Hz (or_introl eq_refl) Hf). Qed.
+Print Assumptions C02_severity_records.
+Theorem C02_fault_counters : forall pc l pre acc fuel,
+  Forall wf_rec4 l -> (pc_ign pc = true -> Forall (fun x => x <> (0, 0)) l) -> (List.length l + 0 < fuel)%nat ->
+  loop_pairs fuel pc true (pre ++ recs4 l ++ repeat 0 0) (List.length pre) acc = inr (acc ++ map dtcf l).
+Proof. intros pc l pre acc fuel Hw Hz Hf. exact (loop_fault_counters_decode pc l pre acc 0 fuel Hw Hz (or_introl eq_refl) Hf). Qed.
+Print Assumptions C02_fault_counters.
+
+(* C02_partial: the user-defined-memory variants 0x18 / 0x19 (one more header byte), the snapshot-identification pairs (0x03),
+   the RequestFileTransfer composite and the Authentication task layouts are decoded field by field by the functions whose
+   primitive steps are proved above (take_num, extract_param, sub3/at_, the loops); their end-to-end statement is checked by the
    structured-valid correspondence against the reference server encoder tools/harness/respspec.py, not yet by a Coq theorem. *)
